@@ -18,7 +18,7 @@ from bqskit.ir.circuit import Circuit
 
 
 # ------------------------------------------------------------ client scripts
-def _run_script(comp: Any, o: dict, script: list) -> None:
+def _run_script(comp: Any, o: dict, script: list, cname: str = 'cli0') -> None:
     """Generic client program.
 
     ops: ['compile', tree] ['submit', slot, tree] ['result', slot]
@@ -41,12 +41,12 @@ def _run_script(comp: Any, o: dict, script: list) -> None:
         try:
             if k == 'compile':
                 _, data = comp.compile(
-                    Circuit(1), [trees.TreePass(op[1])], True,
+                    Circuit(1), [trees.TreePass(op[1], root=cname)], True,
                 )
                 v = data['out']
             elif k == 'submit':
                 slots[op[1]] = comp.submit(
-                    Circuit(1), [trees.TreePass(op[2])], True,
+                    Circuit(1), [trees.TreePass(op[2], root=cname + ':' + op[1])], True,
                 )
                 v = None
             elif k == 'fresh_id':
@@ -123,7 +123,7 @@ def build_world(spec: dict, choices: Any = (), fault: Any = None,
         first = 'm0.main'
     w.n_clients = len(spec['clients'])
     for i, script in enumerate(spec['clients']):
-        w.client(i, lambda comp, o, s=script: _run_script(comp, o, s))
+        w.client(i, lambda comp, o, s=script, i=i: _run_script(comp, o, s, f'cli{i}'))
     w.first = first
     return w
 
@@ -141,7 +141,7 @@ def _build_boss_world(w: World, spec: dict) -> World:
     tree = script[0][1]
     o = w.out.setdefault('cli0', {})
     conn = BossConn(spec['topo'][1], o)
-    ctask = CompilationTask(Circuit(1), [trees.TreePass(tree)])
+    ctask = CompilationTask(Circuit(1), [trees.TreePass(tree, root='cli0')])
     ctask.request_data = True
     rt = RuntimeTask((CompilationTask.run, (ctask,), {}),
                      RuntimeAddress(-1, 0, 0), 0, tuple(), 0, -1)
